@@ -463,5 +463,10 @@ def generate(tier, seed):
     for i in range(n_c):
         n = rng.randint(3, 12)
         rows = [[rng.choice(cells), rng.choice(cells)] for _ in range(n)]
+        if i % 3 == 2:
+            # content that aligns across the alpha/beta boundary when the two chains are concatenated
+            xc = ["CASSQET", "CAS", "SQETCAS", "CA", "SQET", "CASCAS", "ETCAS", "CASSQ"]
+            rows = [[rng.choice(xc), rng.choice(xc)] for _ in range(n)]
+            rows[0], rows[1] = ["CASSQET", "CAS"], ["CAS", "SQETCAS"]
         yield "clustermap", {"rows": rows, "single": [None, None, "alpha", "beta"][i % 4], "index": [None, "string", "shifted"][i % 3],
                              "meta": i % 5 == 0, "method": ["average", "single", "complete"][i % 3], "t": rng.choice([2, 4, 6])}, i < 8
